@@ -6,8 +6,6 @@ package harness
 import (
 	"math/big"
 	"testing"
-
-	vmcommon "github.com/ElrondNetwork/elrond-vm-common"
 )
 
 type absOp struct {
@@ -45,7 +43,7 @@ func c15Universe() (WorldSpec, []absOp) {
 			if all {
 				amt = bal(e, from, string(F))
 			}
-			return call(sh(from), vmcommon.BuiltInFunctionESDTTransfer, from, to, F, amt)
+			return call(sh(from), refBuiltInFunctionESDTTransfer, from, to, F, amt)
 		}
 	}
 	nftTransfer := func(from, to []byte, all bool) func(*Engine) *Call {
@@ -54,11 +52,11 @@ func c15Universe() (WorldSpec, []absOp) {
 			if all {
 				amt = bal(e, from, n1)
 			}
-			return call(sh(from), vmcommon.BuiltInFunctionESDTNFTTransfer, from, from, S, []byte{1}, amt, to)
+			return call(sh(from), refBuiltInFunctionESDTNFTTransfer, from, from, S, []byte{1}, amt, to)
 		}
 	}
 	create := func(who []byte, qty byte) func(*Engine) *Call {
-		return self(vmcommon.BuiltInFunctionESDTNFTCreate, who, fixed(S, []byte{qty}, []byte("n"), []byte{}, []byte("h"), []byte{}, []byte("u")))
+		return self(refBuiltInFunctionESDTNFTCreate, who, fixed(S, []byte{qty}, []byte("n"), []byte{}, []byte("h"), []byte{}, []byte("u")))
 	}
 	deliver := func(last bool) func(*Engine) *Call {
 		return func(e *Engine) *Call {
@@ -74,16 +72,16 @@ func c15Universe() (WorldSpec, []absOp) {
 		}
 	}
 	ops := []absOp{
-		{"issue F->A 100", system(vmcommon.BuiltInFunctionESDTTransfer, A, F, []byte{100})},
-		{"issue F->C 1", system(vmcommon.BuiltInFunctionESDTTransfer, C, F, []byte{1})},
+		{"issue F->A 100", system(refBuiltInFunctionESDTTransfer, A, F, []byte{100})},
+		{"issue F->C 1", system(refBuiltInFunctionESDTTransfer, C, F, []byte{1})},
 		{"roles A F", func(e *Engine) *Call {
 			if len(e.M.acc(0, A).Roles[string(F)]) > 0 {
 				return nil // N6: never sets a role the account already holds
 			}
-			return call(0, vmcommon.BuiltInFunctionSetESDTRole, sys, A, F, []byte(vmcommon.ESDTRoleLocalMint), []byte(vmcommon.ESDTRoleLocalBurn))
+			return call(0, refBuiltInFunctionSetESDTRole, sys, A, F, []byte(refESDTRoleLocalMint), []byte(refESDTRoleLocalBurn))
 		}},
 		{"roles A SFT", func(e *Engine) *Call {
-			if e.M.acc(0, A).hasRole(S, vmcommon.ESDTRoleNFTCreate) || e.M.Issued[string(S)] > 0 || len(e.M.acc(0, A).Roles[string(S)]) > 0 {
+			if e.M.acc(0, A).hasRole(S, refESDTRoleNFTCreate) || e.M.Issued[string(S)] > 0 || len(e.M.acc(0, A).Roles[string(S)]) > 0 {
 				return nil // N6: never set twice, create role only once
 			}
 			for _, m := range e.M.Msgs {
@@ -91,13 +89,13 @@ func c15Universe() (WorldSpec, []absOp) {
 					return nil
 				}
 			}
-			return call(0, vmcommon.BuiltInFunctionSetESDTRole, sys, A, S, []byte(vmcommon.ESDTRoleNFTCreate), []byte(vmcommon.ESDTRoleNFTAddQuantity), []byte(vmcommon.ESDTRoleNFTBurn), []byte(vmcommon.ESDTRoleNFTAddURI), []byte(vmcommon.ESDTRoleNFTUpdateAttributes))
+			return call(0, refBuiltInFunctionSetESDTRole, sys, A, S, []byte(refESDTRoleNFTCreate), []byte(refESDTRoleNFTAddQuantity), []byte(refESDTRoleNFTBurn), []byte(refESDTRoleNFTAddURI), []byte(refESDTRoleNFTUpdateAttributes))
 		}},
-		{"mint A 1", self(vmcommon.BuiltInFunctionESDTLocalMint, A, fixed(F, []byte{1}))},
-		{"localburn A all", self(vmcommon.BuiltInFunctionESDTLocalBurn, A, func(e *Engine) [][]byte { return [][]byte{F, bal(e, A, string(F))} })},
-		{"localburn A 1", self(vmcommon.BuiltInFunctionESDTLocalBurn, A, fixed(F, []byte{1}))},
+		{"mint A 1", self(refBuiltInFunctionESDTLocalMint, A, fixed(F, []byte{1}))},
+		{"localburn A all", self(refBuiltInFunctionESDTLocalBurn, A, func(e *Engine) [][]byte { return [][]byte{F, bal(e, A, string(F))} })},
+		{"localburn A 1", self(refBuiltInFunctionESDTLocalBurn, A, fixed(F, []byte{1}))},
 		{"burn A all", func(e *Engine) *Call {
-			return call(0, vmcommon.BuiltInFunctionESDTBurn, A, sys, F, bal(e, A, string(F)))
+			return call(0, refBuiltInFunctionESDTBurn, A, sys, F, bal(e, A, string(F)))
 		}},
 		{"transfer A->B 1", transfer(A, B, false)},
 		{"transfer A->B all", transfer(A, B, true)},
@@ -108,48 +106,48 @@ func c15Universe() (WorldSpec, []absOp) {
 		{"create A 1", create(A, 1)},
 		{"create B 1", create(B, 1)},
 		{"create C 1", create(C, 1)},
-		{"addq A n1 1", self(vmcommon.BuiltInFunctionESDTNFTAddQuantity, A, fixed(S, []byte{1}, []byte{1}))},
-		{"nftburn A n1 all", self(vmcommon.BuiltInFunctionESDTNFTBurn, A, func(e *Engine) [][]byte { return [][]byte{S, {1}, bal(e, A, n1)} })},
-		{"nftburn A n1 1", self(vmcommon.BuiltInFunctionESDTNFTBurn, A, fixed(S, []byte{1}, []byte{1}))},
-		{"adduri A n1", self(vmcommon.BuiltInFunctionESDTNFTAddURI, A, fixed(S, []byte{1}, []byte("u2")))},
-		{"update A n1", self(vmcommon.BuiltInFunctionESDTNFTUpdateAttributes, A, fixed(S, []byte{1}, []byte("a2")))},
+		{"addq A n1 1", self(refBuiltInFunctionESDTNFTAddQuantity, A, fixed(S, []byte{1}, []byte{1}))},
+		{"nftburn A n1 all", self(refBuiltInFunctionESDTNFTBurn, A, func(e *Engine) [][]byte { return [][]byte{S, {1}, bal(e, A, n1)} })},
+		{"nftburn A n1 1", self(refBuiltInFunctionESDTNFTBurn, A, fixed(S, []byte{1}, []byte{1}))},
+		{"adduri A n1", self(refBuiltInFunctionESDTNFTAddURI, A, fixed(S, []byte{1}, []byte("u2")))},
+		{"update A n1", self(refBuiltInFunctionESDTNFTUpdateAttributes, A, fixed(S, []byte{1}, []byte("a2")))},
 		{"nft A->B 1", nftTransfer(A, B, false)},
 		{"nft A->B all", nftTransfer(A, B, true)},
 		{"nft A->C all", nftTransfer(A, C, true)},
 		{"nft B->A all", nftTransfer(B, A, true)},
-		{"multi A->B F1+n1", self(vmcommon.BuiltInFunctionMultiESDTNFTTransfer, A, fixed(B, []byte{2}, F, []byte{0}, []byte{1}, S, []byte{1}, []byte{1}))},
-		{"multi A->C Fall", self(vmcommon.BuiltInFunctionMultiESDTNFTTransfer, A, func(e *Engine) [][]byte { return [][]byte{C, {1}, F, {}, bal(e, A, string(F))} })},
-		{"multi A->B F1 F1", self(vmcommon.BuiltInFunctionMultiESDTNFTTransfer, A, fixed(B, []byte{2}, F, []byte{0}, []byte{1}, F, []byte{0}, []byte{1}))},
-		{"freeze A F", system(vmcommon.BuiltInFunctionESDTFreeze, A, F)},
-		{"unfreeze A F", system(vmcommon.BuiltInFunctionESDTUnFreeze, A, F)},
-		{"wipe A F", system(vmcommon.BuiltInFunctionESDTWipe, A, F)},
-		{"freeze B F", system(vmcommon.BuiltInFunctionESDTFreeze, B, F)},
+		{"multi A->B F1+n1", self(refBuiltInFunctionMultiESDTNFTTransfer, A, fixed(B, []byte{2}, F, []byte{0}, []byte{1}, S, []byte{1}, []byte{1}))},
+		{"multi A->C Fall", self(refBuiltInFunctionMultiESDTNFTTransfer, A, func(e *Engine) [][]byte { return [][]byte{C, {1}, F, {}, bal(e, A, string(F))} })},
+		{"multi A->B F1 F1", self(refBuiltInFunctionMultiESDTNFTTransfer, A, fixed(B, []byte{2}, F, []byte{0}, []byte{1}, F, []byte{0}, []byte{1}))},
+		{"freeze A F", system(refBuiltInFunctionESDTFreeze, A, F)},
+		{"unfreeze A F", system(refBuiltInFunctionESDTUnFreeze, A, F)},
+		{"wipe A F", system(refBuiltInFunctionESDTWipe, A, F)},
+		{"freeze B F", system(refBuiltInFunctionESDTFreeze, B, F)},
 		{"pause F shard0", func(*Engine) *Call {
-			return call(0, vmcommon.BuiltInFunctionESDTPause, sys, refSystemAccount, F)
+			return call(0, refBuiltInFunctionESDTPause, sys, refSystemAccount, F)
 		}},
 		{"unpause F shard0", func(*Engine) *Call {
-			return call(0, vmcommon.BuiltInFunctionESDTUnPause, sys, refSystemAccount, F)
+			return call(0, refBuiltInFunctionESDTUnPause, sys, refSystemAccount, F)
 		}},
 		{"pause SFT shard0", func(*Engine) *Call {
-			return call(0, vmcommon.BuiltInFunctionESDTPause, sys, refSystemAccount, S)
+			return call(0, refBuiltInFunctionESDTPause, sys, refSystemAccount, S)
 		}},
 		{"handover A->B", func(e *Engine) *Call {
-			if !e.M.acc(0, A).hasRole(S, vmcommon.ESDTRoleNFTCreate) {
+			if !e.M.acc(0, A).hasRole(S, refESDTRoleNFTCreate) {
 				return nil // N6: the system contract addresses the hand-over to the current holder
 			}
-			return call(0, vmcommon.BuiltInFunctionESDTNFTCreateRoleTransfer, sys, A, S, B)
+			return call(0, refBuiltInFunctionESDTNFTCreateRoleTransfer, sys, A, S, B)
 		}},
 		{"handover A->C", func(e *Engine) *Call {
-			if !e.M.acc(0, A).hasRole(S, vmcommon.ESDTRoleNFTCreate) {
+			if !e.M.acc(0, A).hasRole(S, refESDTRoleNFTCreate) {
 				return nil
 			}
-			return call(0, vmcommon.BuiltInFunctionESDTNFTCreateRoleTransfer, sys, A, S, C)
+			return call(0, refBuiltInFunctionESDTNFTCreateRoleTransfer, sys, A, S, C)
 		}},
 		{"unsetrole A F burn", func(e *Engine) *Call {
-			if !e.M.acc(0, A).hasRole(F, vmcommon.ESDTRoleLocalBurn) {
+			if !e.M.acc(0, A).hasRole(F, refESDTRoleLocalBurn) {
 				return nil
 			}
-			return call(0, vmcommon.BuiltInFunctionUnSetESDTRole, sys, A, F, []byte(vmcommon.ESDTRoleLocalBurn))
+			return call(0, refBuiltInFunctionUnSetESDTRole, sys, A, F, []byte(refESDTRoleLocalBurn))
 		}},
 		{"deliver first", deliver(false)},
 		{"deliver last", deliver(true)},
